@@ -25,6 +25,7 @@ SOFTWARE.
 package client
 
 import (
+	"bytes"
 	"errors"
 	"fmt"
 	"sync"
@@ -67,6 +68,11 @@ type MessageClient interface {
 //counterfeiter:generate . ConnectionFactory
 type ConnectionFactory interface {
 	New() (net.Conn, error)
+}
+
+// sendBufferPool recycles the buffers in which Send assembles a message.
+var sendBufferPool = sync.Pool{
+	New: func() interface{} { return new(bytes.Buffer) },
 }
 
 type Client struct {
@@ -300,7 +306,19 @@ func (c *Client) Send(e protocol.ChunkEncoder) error {
 		defer c.ackLock.Unlock()
 	}
 
-	err = msgp.Encode(c.session.Connection, e)
+	// Encode the whole message before touching the connection: a message that
+	// cannot be encoded leaves the connection untouched, and an encodable one
+	// reaches it in a single Write, so concurrent senders cannot interleave.
+	buf := sendBufferPool.Get().(*bytes.Buffer)
+	buf.Reset()
+
+	defer sendBufferPool.Put(buf)
+
+	if err = msgp.Encode(buf, e); err != nil {
+		return err
+	}
+
+	_, err = c.session.Connection.Write(buf.Bytes())
 	if err != nil || !c.RequireAck {
 		return err
 	}
